@@ -40,6 +40,26 @@ check("C12", "model_checking",
       "all-interleavings part is carried by the protocol specs (spec/pipeline) where present.",
       "TLC judging of real-code outputs across configurations + TLA+ protocol specs", "DESIGN.md §5 C12")
 
+check("C04", "model_checking",
+      "SolidAlgebra.tla gives the exact denotation (rational point arithmetic) of expression trees over integer boxes; "
+      "seeded trees through every combinator/wrapper and operand lists in EVERY permutation through every n-ary "
+      "combinator (JoinedSolid, Optimize, SolidMux incl. AllContains/IterContains totals, IntersectedSolid, RectSet.Solid, "
+      "StackSolids, StackedSolid) are built with the real constructors, probed on the half-integer grid incl. box faces, "
+      "and TLC requires the contained probe set to equal the denotation. Smooth joins: TLC enumerates every radius and "
+      "every tuple of operand distances (<= 4-5 operands), checks the laws of the model (radius 0, single operand, fewer "
+      "than two operands within the radius, permutation invariance) and judges the real 2-D/3-D SmoothJoin/SmoothJoinV2.",
+      "Trusted: TLC, exactness of float arithmetic on dyadic values. Operands are boxes (closed); curved operands are not "
+      "used because their membership is not exactly representable.",
+      "TLA+ denotational spec evaluated by TLC against real-code answers; TLC-generated cases replayed", "DESIGN.md §5 C04")
+check("C03", "model_checking",
+      "Seeded expression trees over integer boxes through every combinator and wrapper (Translate, Scale, negative "
+      "VecScale, signed axis permutations, ForceSolidBounds, CacheSolidBounds, Optimize, SolidMux, RectSet, stacks) are "
+      "built with the real constructors; TLC checks finite min <= max bounds, that no contained probe lies outside the "
+      "reported box, and that the contained probes are exactly the tree's denotation (wrappers do not cut the shape).",
+      "Trusted: TLC, SolidAlgebra denotation. Box world only at this stage; curved primitives and toolbox solids are "
+      "covered only as far as later stages of the check add them (see DESIGN.md).",
+      "TLA+ denotational spec evaluated by TLC against real-code answers", "DESIGN.md §5 C03")
+
 _pending = "check not built yet in this session (planned, see DESIGN.md §10)"
 for pid in ["C01","C02","C03","C04","C05","C06","C07","C08","C10","C11","C12","C13","C14","C15","C16","C17","C18","C20"]:
     if pid not in CHECKS:
